@@ -541,7 +541,7 @@ func runC12(c *mon.Ctx) {
 	}
 	c.SetExhaustive()
 	// (b) sampled batches
-	nB := c.Scale(2000, 100000)
+	nB := c.Scale(2000, 1000000)
 	servers := []string{"a.example", "b.example:8448", "c.example"}
 	for k := 0; k < nB; k++ {
 		nreq := r.Range(1, 6)
@@ -757,7 +757,7 @@ func c12KeyResponses(c *mon.Ctx, w *keyWorld, r *gen.Rand) {
 	}
 	// (d) fetchers
 	notary := gen.NewIdentity(r, "notary.example", "ed25519:n1")
-	n := c.Scale(600, 20000)
+	n := c.Scale(600, 100000)
 	for k := 0; k < n; k++ {
 		servers := []string{"a.example", "b.example:8448", "c.example"}
 		nsrv := r.Range(1, 3)
